@@ -54,7 +54,11 @@ func (e *Env) APIDo(ctx context.Context, worker, method, path string, body any, 
 		ctx = context.Background()
 	}
 	ctx = pgmodel.WithWorker(ctx, worker)
-	ctx = logging.ContextWithLogger(ctx, apiQuietLogger)
+	if os.Getenv("VH_DEBUG") != "" {
+		ctx = logging.ContextWithLogger(ctx, logging.NewDefaultLogger(os.Stderr, true, false, false))
+	} else {
+		ctx = logging.ContextWithLogger(ctx, apiQuietLogger)
+	}
 	req := httptest.NewRequest(method, path, rd).WithContext(ctx)
 	if rd != nil {
 		req.Header.Set("Content-Type", "application/json")
@@ -133,9 +137,21 @@ func classifyCode(code, msg string) string {
 	return "validation"
 }
 
+// EffectiveWorker: the elements of a parallel bulk run on several connections of the SAME logical client
+// and legitimately wait for each other's row locks. pgmodel treats a wait on another connection of the
+// same named worker as a self-deadlock (right for sequential clients), so parallel bulks are sent with
+// the anonymous worker "", for which pgmodel applies plain lock waits and real deadlock detection.
+func EffectiveWorker(worker string, rq Req) string {
+	if rq.K == "bulk" && rq.Parallel && worker != "pw" {
+		return ""
+	}
+	return worker
+}
+
 // ExecBulk sends the bulk and classifies every per-element result, in the order of the response.
 func (e *Env) ExecBulk(ctx context.Context, worker string, rq Req) ReqRes {
 	rq.Norm()
+	worker = EffectiveWorker(worker, rq)
 	e.SetNow(rq.Now)
 	els := make([]any, 0, len(rq.Els))
 	for _, op := range rq.Els {
@@ -284,9 +300,10 @@ func RunBulkCase(c BulkCase) BulkObs {
 // of the ledger were durable (so an event can never precede the commit of the write it announces).
 func (e *Env) DoWatched(ctx context.Context, worker string, rq Req) (ReqRes, []EvObs) {
 	rq.Norm()
+	worker = EffectiveWorker(worker, rq)
 	pos := 0
 	if rq.Fault > 0 {
-		prog, err := Measure(e, worker, func() Req { r := rq; r.Fault = 0; return r }())
+		prog, err := Measure(e, worker, func() Req { r := rq; r.Fault = 0; return r }(), true)
 		if err == nil && rq.Fault <= len(prog.Commits) {
 			pos = prog.Commits[rq.Fault-1]
 		} else {
@@ -422,7 +439,9 @@ func RunReqCase(c ReqCase) ([]BLine, error) {
 		// results are recorded without the projected transactions (TLC does not need them)
 		for i := range res.Els {
 			res.Els[i].Tx = nil
-			res.Els[i].Msg = ""
+			if len(res.Els[i].Msg) > 160 {
+				res.Els[i].Msg = res.Els[i].Msg[:160]
+			}
 		}
 		lines = append(lines, BLine{Case: c.N, Op: rq, Res: res, St: map[string]LedgerObs{"l1": st}, Ev: evs})
 	}
